@@ -9,7 +9,7 @@
     linearisation events: [EIns t m k now] = thread t's call for message m with key k was
     answered "new" and recorded k at clock [now]; [EDup] = answered "duplicate";
     [ESweep c T clk ks] = cleaner c, at clock clk, ran cleanOut(T) and deleted exactly ks. *)
-From WM Require Import Base.Prelude Dedup.Model Dedup.MonProofs Dedup.Proofs Dedup.ApiProofs Dedup.Timed Dedup.TimedProofs Dedup.Clients Dedup.ClientsProofs.
+From WM Require Import Base.Prelude Dedup.Model Dedup.MonProofs Dedup.Proofs Dedup.ApiProofs Dedup.Timed Dedup.TimedProofs Dedup.Clients Dedup.ClientsProofs Dedup.TimelockProofs Dedup.EndToEndProofs Dedup.BatchProofs.
 Local Open Scope Z_scope.
 
 (** The lookup and the insert of different goroutines never interleave: at most one thread is
@@ -178,8 +178,7 @@ Print Assumptions C14_reaccepted_within_two_windows.
 (** Towards time-lock freedom of the timely system (the urgency assumptions can always be met,
     by thread steps, which take no time and which [tstep] never refuses): whoever holds the
     mutex releases it within three of its own steps; with the mutex free a cleaner that has its
-    tick completes its cycle.  (What is not proved: the composition into "from every reachable
-    state"; it needs the invariant owner = Some t -> holds t, the converse of the one in [Inv].) *)
+    tick completes its cycle.  Composed into [C14_time_can_advance] below. *)
 Theorem C14_holder_releases : forall (w : Z) (s : state) (t : tid),
   holds (thr s t) = true ->
   exists n s', (n <= 3)%nat /\ replay w s (repeat (LThr t) n) = Some s' /\ owner s' = None
@@ -194,6 +193,39 @@ Theorem C14_cleaner_cycle_possible : forall (w : Z) (s : state) (c : tid) (T : Z
              /\ forall k e, alookup k (tags s') = Some e -> T <= e.
 Proof. exact cleaner_cycle_possible. Qed.
 Print Assumptions C14_cleaner_cycle_possible.
+
+(** The converse of the owner invariant: whoever owns the mutex is between Lock and Unlock. *)
+Theorem C14_owner_holds : forall (w t0 : Z) roles sched t,
+  owner (run w (init t0 roles) sched) = Some t -> holds (thr (run w (init t0 roles) sched) t) = true.
+Proof. exact owner_holds. Qed.
+Print Assumptions C14_owner_holds.
+
+(** Time-lock freedom: from EVERY reachable state of the timely system there is a schedule,
+    accepted label by label ([treplay] is strict), that carries the clock past any bound — the
+    urgency assumptions can always be met (the lock holder releases, the cleaner finishes its
+    cycle, the clock moves to the next fire time, the tick is received, ...). *)
+Theorem C14_time_can_advance : forall (w p d : Z) (c : tid) (t0 : Z),
+  0 <= w -> 0 <= d <= p -> forall roles sched X, 0 < p -> roles c = RCleaner ->
+  exists sched' ts', treplay w p d c (trun w p d c (tinit t0 roles) sched) sched' = Some ts'
+                     /\ X <= clock (base ts').
+Proof. exact time_can_advance. Qed.
+Print Assumptions C14_time_can_advance.
+
+(** Closed-system liveness as ONE statement: in the timely system time never stops, and
+    whenever it has carried a call more than w + p + 3d past the last insertion of its key,
+    that call is answered "new". *)
+Theorem C14_closed_system_liveness : forall w p d c t0 roles sched,
+  0 <= w -> 0 <= d <= p -> 0 < p -> roles c = RCleaner ->
+  let ts := trun w p d c (tinit t0 roles) sched in
+  (forall X, exists sched' ts', treplay w p d c ts sched' = Some ts' /\ X <= clock (base ts'))
+  /\ (forall sched' ts', treplay w p d c ts sched' = Some ts' ->
+      forall pre t m k tins mid e rest,
+        rev (trace (base ts')) = pre ++ EIns t m k tins :: mid ++ e :: rest ->
+        forallb (fun y => negb (inserts k y)) mid = true ->
+        calls_key k e = true -> tins + w + p + 3 * d < ev_time e ->
+        is_dup e = false).
+Proof. exact closed_system_liveness. Qed.
+Print Assumptions C14_closed_system_liveness.
 
 (** A sweep is complete: while the cleaner still holds the lock after cleanOut(T), no
     remembered key has an expiry before T. *)
@@ -254,6 +286,57 @@ Theorem C14_delivered_iff_new_refuted_before_fix :
                   /\ delivered false ops ans <> news (combine (compile false ops) ans).
 Proof. exact delivered_before_fix_refuted. Qed.
 Print Assumptions C14_delivered_iff_new_refuted_before_fix.
+
+(** ** End to end: what reaches the handler / the inner publisher — client programs over the
+    TIMELY repository.  "Exactly one per key per window, and again after the window":
+    (i) a finished goroutine's handler / publisher got exactly its repository steps answered
+    "new"; (ii) two such steps with one key, of any goroutines, are more than a window apart;
+    (iii) within the window of an accepted message every message with its key is answered
+    "duplicate"; (iv) a message arriving later than w + p + 3d after the last accepted one with
+    its key is accepted again and is among the delivered ones of its goroutine. *)
+Theorem C14_handler_end_to_end : forall w p d c t0 roles sched,
+  0 <= w -> 0 <= d <= p -> roles c = RCleaner ->
+  let s := base (trun w p d c (tinit t0 roles) sched) in
+  (forall t ops res, roles t = RClient (compile true ops) -> thr s t = TClient [] PIdle res ->
+     delivered true ops (rev (map snd res)) = ins_msgs t (rev (trace s)))
+  /\ (forall a t1 m1 k n1 b t2 m2 n2 c',
+        rev (trace s) = a ++ EIns t1 m1 k n1 :: b ++ EIns t2 m2 k n2 :: c' -> n1 + w < n2)
+  /\ (forall pre t m k tins mid e rest,
+        rev (trace s) = pre ++ EIns t m k tins :: mid ++ e :: rest -> calls_key k e = true ->
+        (ev_time e <= tins + w -> is_dup e = true)
+        /\ (forallb (fun y => negb (inserts k y)) mid = true -> tins + w + p + 3 * d < ev_time e ->
+            exists te me ne, e = EIns te me k ne /\ In me (ins_msgs te (rev (trace s))))).
+Proof. exact handler_end_to_end. Qed.
+Print Assumptions C14_handler_end_to_end.
+
+(** Duplicates INSIDE one batch.  Sequentially, any batch without failures: a message the
+    repository answered "duplicate" is acked, the inner publisher gets exactly the "new" ones,
+    and (distinct message objects) the duplicate is not among them. *)
+Theorem C14_decorator_duplicate_acked_seq : forall fixed ms m it,
+  all_keys ms -> In (m, it, RDup) ms ->
+  In m (d_acked (dec_run fixed ms))
+  /\ d_inner (dec_run fixed ms) = Some (msgs_with is_new ms)
+  /\ (NoDup (map (fun x => fst (fst x)) ms) -> ~ In m (msgs_with is_new ms)).
+Proof. exact duplicate_in_batch_acked_seq. Qed.
+Print Assumptions C14_decorator_duplicate_acked_seq.
+
+(** Concurrently: a goroutine publishes [m1; m2] with ONE key in one Publish call.  If its
+    repository step for m1 is answered "new" at n1 and its step for m2 happens no later than
+    n1 + w, then — whatever the other goroutines and the cleaner do — the step for m2 is
+    answered "duplicate", the decorator acks m2, and the inner publisher is given exactly [m1].
+    (Without the time bound a sweep between the two steps may let both through: the code does
+    not look at the batch, only at the repository.) *)
+Theorem C14_decorator_duplicate_in_batch_acked : forall w t0 roles sched t m1 m2 k res a n1 b e2 n2 c',
+  let s := run w (init t0 roles) sched in
+  roles t = RClient (compile true [OpDEC [(m1, IKey k); (m2, IKey k)]]) ->
+  thr s t = TClient [] PIdle res ->
+  rev (trace s) = a ++ EIns t m1 k n1 :: b ++ e2 :: c' ->
+  (e2 = EIns t m2 k n2 \/ e2 = EDup t m2 k n2) -> n2 <= n1 + w ->
+  e2 = EDup t m2 k n2
+  /\ let o := dec_run true (annotate [(m1, IKey k); (m2, IKey k)] (rev (map snd res))) in
+     d_acked o = [m2] /\ d_inner o = Some [m1] /\ d_result o = DInner.
+Proof. exact duplicate_in_batch_acked. Qed.
+Print Assumptions C14_decorator_duplicate_in_batch_acked.
 
 (** Middleware: a duplicate is dropped as a success — (nil, nil) — and that is the only way to
     get (nil, nil) from the middleware itself; the handler is not invoked. *)
